@@ -457,7 +457,10 @@ func (r *runner) exec() (out Out) {
 					break
 				}
 			}
-			if exp.Op != gotOp || (exp.Pk != "" && exp.Pk != gotPk) || (exp.Res != "" && gotRes != "" && exp.Res != gotRes) {
+			// the order in which a handle removes several stale tables (Go map iteration) is not the model's: which of two
+			// handles finds a table already gone is not compared
+			orderDependent := gotPk == "tab" && (gotOp == "remove" || gotOp == "open")
+			if exp.Op != gotOp || (exp.Pk != "" && exp.Pk != gotPk) || (!orderDependent && exp.Res != "" && gotRes != "" && exp.Res != gotRes) {
 				out.Drift = append(out.Drift, fmt.Sprintf("step %d h%d: model %s/%s/%s code %s/%s/%s", out.Steps, h, exp.Op, exp.Pk, exp.Res, gotOp, gotPk, gotRes))
 			}
 		}
